@@ -40,7 +40,76 @@ def task(name: str, item: Any) -> dict[str, Any]:
             return {"status": "violation", "kind": "map-position", "program": item,
                     "what": f"entry {off} -> line {m.line} column {m.column} does not point at the start of a statement",
                     "witness": {"text": text[:1200]}}
+    # third clause: compiling the emitted text places the corresponding op on the same line; and an op that is printed
+    # as its own statement has an entry. Ops correspond by position when the recompilation is op for op the input,
+    # otherwise by their label when that is unique on both sides.
+    if not text.startswith("//?: is-ssb-script: true"):
+        bad = _against_compile_map(ops, text, {off: (m.line, m.column) for off, m in smap},
+                                   by_label=not pC02.input_classes(infos, ops))
+        if bad is not None:
+            kind, what = bad
+            return {"status": "violation", "kind": kind, "program": item, "what": what, "witness": {"text": text[:1500]},
+                    "classes": pC02.input_classes(infos, ops)}
     return {"status": "ok", "routines": 0, "equal": 0, "sample": {"entries": n, "lines": len(lines)}}
+
+
+_OWN = {"Return": "return;", "End": "end;", "Hold": "hold;", "Jump": "jump @"}
+
+
+def _against_compile_map(ops: list[list[Any]], text: str, md: dict[int, tuple[int, int]],
+                         by_label: bool) -> tuple[str, str] | None:
+    import collections
+    from harness.pC01 import compile_text
+    from harness.pC06 import ops_equal_up_to_offsets
+    from spec.ssb_machine import JUMP_OPS, norm_param
+
+    try:
+        c2 = compile_text(text)
+    except Exception:  # noqa  (C02's subject)
+        return None
+    lines = text.split("\n")
+
+    def lab(op: Any) -> str:
+        ps = list(op.params)[:-1] if op.op_code.name in JUMP_OPS else list(op.params)
+        return repr((op.op_code.name, tuple(norm_param(p) for p in ps)))
+
+    pairs: list[tuple[Any, Any]] = []
+    if ops_equal_up_to_offsets(ops, c2.routine_ops) is None:
+        pairs = [(a, b) for ra, rb in zip(ops, c2.routine_ops) for a, b in zip(ra, rb)]
+    elif by_label:  # inputs in a recorded defect class may be printed as a different program: no correspondence
+        la = collections.Counter(lab(o) for r in ops for o in r)
+        lb = collections.Counter(lab(o) for r in c2.routine_ops for o in r)
+        outby = {lab(o): o for r in c2.routine_ops for o in r}
+        pairs = [(a, outby[lab(a)]) for r in ops for a in r if la[lab(a)] == 1 and lb[lab(a)] == 1]
+    for a, b in pairs:
+        mc = c2.source_map.get_op_line_and_col(b.offset)
+        if mc is None:
+            continue
+        d = md.get(a.offset)
+        here = lines[mc.line][mc.column:] if 0 <= mc.line < len(lines) else ""
+        if d is None:
+            nm = a.op_code.name
+            own = _OWN.get(nm) or nm
+            at_start = lines[mc.line][:mc.column].strip(" ") == ""
+            if at_start and (here.startswith(own) if nm in _OWN else (here.startswith(nm + "(") or here.startswith(nm + "<"))):
+                return ("map-missing", f"op {nm}@{a.offset} is printed as its own statement on line {mc.line} ({here[:30]!r}) but has "
+                                       f"no source-map entry")
+            continue
+        if d[0] != mc.line:
+            return ("map-line", f"op {a.op_code.name}@{a.offset}: the decompiler's map says line {d[0]} "
+                                f"({lines[d[0]][d[1]:d[1] + 24]!r}), compiling the emitted text places it on line {mc.line} "
+                                f"({here[:24]!r})")
+    return None
+
+
+def classify(r: dict[str, Any]) -> str | None:
+    """map-line findings are never excused by an input class; a missing entry only by the context-op class (the statement
+    inside `with (..) { return; }` is printed by ctx.py without registration - recorded finding)"""
+    if r.get("kind") == "map-line":
+        return None
+    if r.get("kind") == "map-missing":
+        return "C02-ctx-before-special-op" if "ctx-before-special-op" in (r.get("classes") or []) else None
+    return pC02.classify(r)
 
 
 def replay(name: str, item_repr: str, witness: Any) -> bool:
@@ -48,10 +117,11 @@ def replay(name: str, item_repr: str, witness: Any) -> bool:
 
 
 def run(tier: str, seed: int, known: list[dict[str, Any]]) -> dict[str, Any]:
-    items: list[tuple[str, Any]] = [p for i, p in enumerate(programs(tier, seed)) if tier != "quick" or i % 2 == 0]
+    items: list[tuple[str, Any]] = [p for i, p in enumerate(programs(tier, seed)) if tier != "quick" or i % 2 == 0 or p[0].startswith("F4.")]
     items += list(f6_raw(seed, 200 if tier == "quick" else 4000))
-    r = trun.run_family("C09", "C09.E3", task, items, known, pC02.classify, bounds="F6 inputs: map keys and positions vs the text")
-    r["headline"] = f"{r['programs']} concrete inputs: every map entry is keyed by an input offset and points at the first " \
-                    f"character of a statement line, {r['disagreements_checked']} violations"
+    r = trun.run_family("C09", "C09.E3", task, items, known, classify, bounds="F6 inputs: map keys and positions vs the text")
+    r["headline"] = f"{r['programs']} concrete inputs: every map entry is keyed by an input offset, points at the first " \
+                    f"character of a statement line and agrees on the line with the map of compiling the emitted text; statements " \
+                    f"of their own have entries; {r['disagreements_checked']} violations"
     r["obligations"] = r["discharged"] = r["distinct_nontrivial"] = 0
     return r
